@@ -11,7 +11,20 @@ def b2f(s: str) -> float:
     return struct.unpack('<d', struct.pack('<Q', int(s)))[0]
 
 
+def _real(x):
+    """float(x) for real scalars (incl. numpy scalars / 0-d arrays); None for anything else (complex, str, None)."""
+    try:
+        if isinstance(x, complex) or (hasattr(x, 'imag') and getattr(x, 'imag') != 0):
+            return None
+        return float(x)
+    except (TypeError, ValueError):
+        return None
+
+
 def close(a: float, b: float, rtol=1e-10, atol=1e-12) -> bool:
+    a, b = _real(a), _real(b)
+    if a is None or b is None:
+        return False            # a non-real result never agrees with anything
     if math.isnan(a) or math.isnan(b):
         return math.isnan(a) and math.isnan(b)
     if math.isinf(a) or math.isinf(b):
